@@ -195,6 +195,15 @@ def _build(ctx, case):
         item = _mk_item(ctx.seed, k, p, ident, widx, tail)
         page = M.APage(title=[M.W("t")], top_blocks=[[item]], gap_after_head=gap)
         return page
+    if kind == "mdate-only":
+        # the item has a modify date but no ZID of its own; symbol-only words and then a
+        # ZID-shaped word follow - that word is body, not identity
+        _, k, p, syms, tail_word = case
+        item = _mk_item(ctx.seed, k, p, "none", [0], "single")
+        item.mdate = "240105"
+        item.words = [M.W(w) for w in syms] + [M.W(tail_word), M.W("moved"), M.W("there")]
+        other = _mk_item(ctx.seed, "-", None, "none", [1], "single")
+        return M.APage(title=[M.W("t")], top_blocks=[[item, other]])
     if kind == "spaced":
         # two blanks between the kind/priority prefix and the rest of the first line
         _, k, p, ident, widx = case
@@ -302,6 +311,10 @@ def _cases(ctx):
         for ident in ("none", "zid", "mzid", "long"):
             for widx in ([0], [4, 1]):
                 cases.append(["spaced", k, p, ident, widx])
+    for (k, p) in [("-", None), ("o", "P1"), ("x", None)]:
+        for syms in (["->"], ["*", "|"], ["-"], ["plain"], ["->", "-", "*"]):
+            for tail_word in ("240101#AB", "240102#CD0", "2024-01-01", "240103"):
+                cases.append(["mdate-only", k, p, syms, tail_word])
     # every ordered pair of word forms as (part of) a body
     for pi in range(len(RICH_PREFIXES)):
         for a in range(len(FORMS)):
